@@ -74,6 +74,7 @@ type Spec struct {
 	Mutate   string   `json:"mutate,omitempty"` // statement run after the capture in the same iteration
 	Wrap     bool     `json:"wrap,omitempty"`   // f is a local of an enclosing function (calls itself through a free variable)
 	Helper   bool     `json:"helper,omitempty"` // a local is computed through a helper call
+	Dead     string   `json:"dead,omitempty"`   // a no-op prefix of the body that leaves dead code for optimizeFunc to remove
 }
 
 var tailForms = []string{"return", "and", "or", "and-merged", "or-merged", "ternary-false", "if-else", "paren", "in-loop", "forin", "spread", "stmt", "stmt-in-if"}
@@ -243,6 +244,17 @@ func genSpec(r *lib.RNG, form string) *Spec {
 	if form != "other-fn" && r.Chance(1, 5) {
 		s.Wrap = true
 	}
+	// dead code before the self call: optimizeFunc removes it and must re-target every later jump
+	if r.Chance(1, 2) {
+		s.Dead = lib.Pick(r, []string{
+			"if N < 0 { return \"neg\" } else { dz := 1 }",
+			"if N < 0 { return \"neg\"; dz := 2 }",
+			"for N < 0 { return \"neg\"; N = N + 1 }",
+			"for { if N >= 0 { break }; return \"neg\"; dz := 3 }",
+			"if N < 0 { if N < -1 { return 1 } else { return 2 }; dz := 4 }",
+		})
+		s.Dead = strings.ReplaceAll(s.Dead, "N", n)
+	}
 	return s
 }
 
@@ -392,7 +404,11 @@ func (s *Spec) recSource(depth int) string {
 	fmt.Fprintf(&b, "%sf := func(%s) {\n", ind, s.paramList(false))
 	bc, be, call, pre := s.baseCond(), s.Base, s.selfCall(), s.pre()
 	base := fmt.Sprintf("\tif %s { res = %s; return %s }\n", bc, be, be)
-	body := s.prelude(false)
+	body := ""
+	if s.Dead != "" {
+		body = "\t" + s.Dead + "\n"
+	}
+	body += s.prelude(false)
 	switch s.Form {
 	case "return":
 		body += base + "\t" + pre + "return " + call + "\n"
@@ -1060,6 +1076,10 @@ func closedForms(depths []int) {
 			{"swap", fmt.Sprintf("f := func(n, a, b) { if n == 0 { return [a, b] }; return f(n-1, b, a) }\nout := f(%d, 1, 2)\n", d), map[bool]string{true: "(a (i 1) (i 2))", false: "(a (i 2) (i 1))"}[d%2 == 0], 2},
 			{"shift3", fmt.Sprintf("f := func(n, a, b, c) { if n == 0 { return [a, b, c] }; return f(n-1, b, c, a) }\nout := f(%d, 1, 2, 3)\n", d), [3]string{"(a (i 1) (i 2) (i 3))", "(a (i 2) (i 3) (i 1))", "(a (i 3) (i 1) (i 2))"}[d%3], 2},
 			{"variadic-count", fmt.Sprintf("f := func(n, ...r) { if n == 0 { return len(r) }; return f(n-1, n, n) }\nout := f(%d)\n", d), map[bool]string{true: "(i 0)", false: "(i 2)"}[d == 0], 2},
+			{"or-after-dead-code", fmt.Sprintf("f := func(n, k) { if n < 0 { return \"neg\" } else { k += 1 }; return n == 0 || f(n-1, k) }\nout := f(%d, 0)\n", d), "(b 1)", 2},
+			{"and-after-dead-code", fmt.Sprintf("f := func(n, k) { if n < 0 { return \"neg\"; k = 2 }; return n != 0 && f(n-1, k) }\nout := f(%d, 0)\n", d), "(b 0)", 2},
+			{"or-truthy-left-after-dead-code", fmt.Sprintf("f := func(n, k) { for n < 0 { return 0; n = 1 }; if n == 0 { return k }; return (n %% 2 == 0 && k) || f(n-1, k) }\nout := [f(%d, 7), f(%d, 0)]\n", d, d),
+				map[bool]string{true: "(a (i 7) (i 0))", false: fmt.Sprintf("(a (i 7) (i 0))")}[d < 2], 2},
 			{"o17-stmt", fmt.Sprintf("f := func(n) { if n == 0 { return 5 }; f(n-1) }\nout := f(%d)\n", d), map[bool]string{true: "(i 5)", false: "u"}[d == 0], 2},
 			{"o17-alternating", fmt.Sprintf("f := func(n, k) { if n == 0 { return 5 }; if k { return f(n-1, false) }; f(n-1, true) }\nout := [f(%d, true), f(%d, false)]\n", d, d),
 				[3]string{"(a (i 5) (i 5))", "(a (i 5) u)", "(a u u)"}[min(d, 2)], 2},
@@ -1130,6 +1150,54 @@ func frameBoundary() {
 	}
 }
 
+// lastFrame: a tail-recursive function entered when (almost) all MaxFrames frames are in use. A self tail
+// call needs no new frame, so whenever a closed-form leaf (one call, one frame) fits at that nesting depth
+// the tail-recursive leaf must complete too, at any recursion depth, with the loop's value.
+func lastFrame(leafDepths []int) {
+	const tmpl = "d := %d\nleaf := func(n, acc) {\n\t%s\n}\nnest := func() {\n\tif d == 0 { return leaf(%d, 0) }\n\td--\n\treturn nest() + 1\n}\nout := nest()\n"
+	leaves := []struct{ name, body string }{
+		{"return", "if n == 0 { return acc }\n\treturn leaf(n-1, acc+n)"},
+		{"or", "if n == 0 { return acc }\n\treturn false || leaf(n-1, acc+n)"},
+		{"ternary", "return n == 0 ? acc : leaf(n-1, acc+n)"},
+	}
+	for depth := tengo.MaxFrames - 6; depth <= tengo.MaxFrames+1; depth++ {
+		for li, n := range leafDepths {
+			closed := runSourceT(fmt.Sprintf(tmpl, depth, "return n*(n+1)/2 + acc", n), false, 60*time.Second)
+			lf := leaves[(depth+li)%len(leaves)]
+			src := fmt.Sprintf(tmpl, depth, lf.body, n)
+			rr := runSourceT(src, true, 60*time.Second)
+			in := caseInput{Depth: depth, Source: src}
+			res.Count("tail", src, true)
+			res.Dist("last-frame:" + closed.class() + "/" + rr.class())
+			if closed.class() == "timeout" || rr.class() == "timeout" {
+				res.Skipped++
+				continue
+			}
+			if closed.class() == "ok" {
+				want := closed.Out.Globals["out"]
+				if rr.class() != "ok" {
+					res.Violate(lib.Violation{Signature: "tail-recursion-fails-in-last-frames:" + rr.class(), Stream: "tail", Input: in,
+						Observed: rr.detail() + fmt.Sprintf(" (nesting %d, max framesIndex %d, max sp %d)", depth, rr.MaxFi, rr.MaxSp),
+						Expected: "out = " + want + " (a leaf that needs one frame fits at this nesting depth; a self tail call needs no further frame)",
+						Oracle: "the same nesting with a closed-form leaf (one call, one frame) succeeds"})
+				} else if got := rr.Out.Globals["out"]; got != want {
+					res.Violate(lib.Violation{Signature: "tail-recursion-in-last-frames-value-differs", Stream: "tail", Input: in,
+						Observed: "out = " + got, Expected: "out = " + want, Oracle: "closed-form leaf at the same nesting depth"})
+				} else if rr.MaxFi != closed.MaxFi {
+					res.Violate(lib.Violation{Signature: "tail-form-grows-frames:last-frames", Stream: "tail", Input: in,
+						Observed: fmt.Sprintf("max framesIndex %d", rr.MaxFi), Expected: strconv.Itoa(closed.MaxFi), Oracle: "VM probe, closed-form leaf twin"})
+				}
+			} else if rr.class() == "ok" {
+				res.Violate(lib.Violation{Signature: "more-frames-than-MaxFrames", Stream: "tail", Input: in,
+					Observed: fmt.Sprintf("completed with max framesIndex %d", rr.MaxFi), Expected: closed.detail(), Oracle: "closed-form leaf at the same nesting depth fails"})
+			}
+			if n <= 1000 {
+				checkModel(rr, in, "model")
+			}
+		}
+	}
+}
+
 // ---------------------------------------------------------------- main
 
 func main() {
@@ -1163,6 +1231,7 @@ func main() {
 	}
 	closedForms(closedDepths)
 	frameBoundary()
+	lastFrame([]int{3, 1000, 50000})
 
 	rng := lib.NewRNG(f.Seed)
 	n := f.Scale(150, 1500)
@@ -1237,6 +1306,7 @@ func replay(path string) {
 		}
 		closedForms([]int{in.Depth})
 		frameBoundary()
+		lastFrame([]int{3, 1000})
 	}
 	for _, v := range rp.Violations {
 		one(v.Input)
